@@ -1,0 +1,504 @@
+//go:build verif
+
+// Contracts for the fvc verification-condition generator in /verif (comment-only file; it adds no
+// code to the package and is only seen with -tags verif).
+//
+// C15 - Sessions: persistent, isolated, expiring, and never adopting a client-chosen id.
+//
+// Model
+//   stHas/stVal (fiber_storage.spec)  the external store: per Storage object, id -> present? / bytes
+//   issued                            the set of ids the server has generated (grown only by KeyGenerator)
+//   s.data.Data                       the Go map a handler reads and writes through Get/Set/Delete
+//   decHas/decVal                     what gob decodes from stored bytes (enc/dec round trip assumed)
+//   sentID/sentLive                   the id announced to the client of a context (cookie or header), and
+//                                     whether it was announced as live or as expired
+// System invariant carried by requires/ensures: every id present in the session store was issued by
+// the server (stored-only-issued), and every live Session object carries an issued id (wfSession).
+// "Never adopt" is then: a Session handed out has an issued id, and an id that already existed is only
+// taken over if it was present in the store, with exactly the stored data.
+// Persistence is the pair saveSession/stored ("the store holds bytes that decode to the session's data, under
+// the session's id, with the idle timeout as TTL") and getSession/existing-id-sees-stored-data ("a session
+// taken over from the store has exactly the decoded data"); in between only expiry/Delete remove entries and
+// only saveSession of the same id writes one (others-untouched clauses): sessions do not mix.
+
+package session
+
+//@ props C15
+
+//@ ghost issued map[string]bool
+//@ ghost sentID map[ref]string
+//@ ghost sentLive map[ref]bool
+
+// Lock discipline: every Lock/RLock is on a lock not held, every Unlock on a held one, and the locks named in
+// `lock` clauses are released at every exit. Concurrent use of ONE Session/Middleware object by several
+// goroutines is outside C15, so the clauses protect only the ghost token lockToken (nothing real is havocked
+// at Lock); the middleware's m.mu additionally carries the ownership invariant mwInv.
+//@ ghost lockToken int
+
+//@ fn decHas(b string, k int) bool
+//@ fn decVal(b string, k int) int
+
+// The key under which the absolute deadline is kept in the session data: the boxed constant
+// absExpirationKey. A boxed value of that (unexported, int-based) type is determined by its payload.
+//@ fn isAbsKeyType(x int) bool = typeis(x, absExpirationKeyType)
+//@ fn absKey() int
+//@ smt (assert (and (isAbsKeyType absKey) (= (unboxI absKey) 0)))
+//@ smt (assert (forall ((x Int)) (! (=> (and (isAbsKeyType x) (= (unboxI x) 0)) (= x absKey)) :pattern ((unboxI x)))))
+
+//@ macro stOf(s) = s.config.Storage
+//@ macro unlocked(s) = !held(s.mu) && !held(s.data.RWMutex) && s.mu != s.data.RWMutex
+//@ macro wfStore(st) = st != nil && st.Storage != nil && st.KeyGenerator != nil && st.IdleTimeout > 0
+//@ macro wfSession(s) = s != nil && s.data != nil && s.data.Data != nil && wfStore(s.config) && s.id != "" && issued[s.id] && unlocked(s)
+//@ macro storedIssued(st) = forallS(k, stHas[st][k] ==> issued[k])
+//@ macro dataEmpty(s) = forallI(k, !indom(s.data.Data, k))
+//@ macro dataIs(s, b) = forallI(k, indom(s.data.Data, k) <==> decHas(b, k)) && forallI(k, decHas(b, k) ==> s.data.Data[k] == decVal(b, k))
+//@ macro othersKept(st, id) = forallS(k, k != id ==> stHas[st][k] == old(stHas[st][k])) && forallI(o, o != st ==> stHas[o] == old(stHas[o])) && stVal == old(stVal)
+
+// ---------------------------------------------------------------------------------------------
+// data.go: the per-session key/value map
+// ---------------------------------------------------------------------------------------------
+
+//@ func (*data).Reset
+//@   requires unlocked: !held(d.RWMutex)
+//@   lock d.RWMutex protects lockToken
+//@   modifies d.Data, lockToken
+//@   ensures empty: d.Data != nil && forallI(k, !indom(d.Data, k))
+
+//@ func (*data).Get
+//@   requires unlocked: !held(d.RWMutex)
+//@   pure
+//@   ensures stored-value: indom(d.Data, key) ==> result == d.Data[key]
+//@   ensures absent-nil: !indom(d.Data, key) ==> result == nil
+
+//@ func (*data).Set
+//@   requires unlocked: !held(d.RWMutex)
+//@   requires map-made: d.Data != nil
+//@   lock d.RWMutex protects lockToken
+//@   modifies heap(MD_any_any), heap(MV_any_any), lockToken
+//@   ensures set: indom(d.Data, key) && d.Data[key] == value
+//@   ensures others-kept: forallI(k, k != key ==> (indom(d.Data, k) <==> old(indom(d.Data, k))) && d.Data[k] == old(d.Data[k]))
+
+//@ func (*data).Delete
+//@   requires unlocked: !held(d.RWMutex)
+//@   lock d.RWMutex protects lockToken
+//@   modifies heap(MD_any_any), lockToken
+//@   ensures deleted: !indom(d.Data, key)
+//@   ensures others-kept: forallI(k, k != key ==> (indom(d.Data, k) <==> old(indom(d.Data, k))) && d.Data[k] == old(d.Data[k]))
+
+// Keys lists keys of this map only (and all of them).
+//@ func (*data).Keys
+//@   requires map-made: d.Data != nil
+//@   requires unlocked: !held(d.RWMutex)
+//@   loop 1
+//@     invariant only-own-keys: forall(i, 0, len(keys), indom(d.Data, keys[i]))
+//@     invariant visited-listed: forallI(k, seen(k) ==> exists(i, 0, len(keys), keys[i] == k))
+//@   ensures only-own-keys: forall(i, 0, len(result), indom(d.Data, result[i]))
+//@   ensures all-keys: forallI(k, indom(d.Data, k) ==> exists(i, 0, len(result), result[i] == k))
+
+// ---------------------------------------------------------------------------------------------
+// Assumptions local to the package
+// ---------------------------------------------------------------------------------------------
+
+// The configured id generator (default utils.UUIDv4) returns a non-empty id it never returned before.
+// Unguessability of the id is outside the contracts.
+//@ func Config.KeyGenerator assumed
+//@   modifies issued
+//@   ensures fresh-id: result != "" && !old(issued)[result] && issued == old(issued)[result := true]
+
+// gob round trip: the bytes produced for a map decode to that map; decoding into a map adds the decoded
+// entries to it (encoding/gob does not clear a non-nil map).
+//@ func (*Session).encodeSessionData assumed
+//@   ensures result1 == nil ==> len(result0) > 0 && forallI(k, decHas(str(result0), k) <==> indom(s.data.Data, k)) && forallI(k, indom(s.data.Data, k) ==> decVal(str(result0), k) == s.data.Data[k])
+//@   ensures result1 != nil ==> result0 == nil
+//@ func (*Session).decodeSessionData assumed
+//@   modifies heap(MD_any_any), heap(MV_any_any)
+//@   ensures result == nil ==> forallI(k, indom(s.data.Data, k) <==> (old(indom(s.data.Data, k)) || decHas(str(rawData), k)))
+//@   ensures result == nil ==> forallI(k, s.data.Data[k] == ite(decHas(str(rawData), k), decVal(str(rawData), k), old(s.data.Data[k])))
+
+// Writing the cookie / header that carries the id to the client (fasthttp side not modelled):
+// setSession announces s.id as live, delSession announces the session as expired.
+//@ func (*Session).setSession assumed
+//@   modifies sentID, sentLive
+//@   ensures s.ctx != nil ==> sentID == old(sentID)[s.ctx := s.id] && sentLive == old(sentLive)[s.ctx := true]
+//@   ensures s.ctx == nil ==> sentID == old(sentID) && sentLive == old(sentLive)
+//@ func (*Session).delSession assumed
+//@   modifies sentLive
+//@   ensures s.ctx != nil ==> sentLive == old(sentLive)[s.ctx := false]
+//@   ensures s.ctx == nil ==> sentLive == old(sentLive)
+
+// ---------------------------------------------------------------------------------------------
+// session.go
+// ---------------------------------------------------------------------------------------------
+
+//@ func (*Session).refresh
+//@   requires wfStore(s.config)
+//@   modifies s.id, s.fresh, issued
+//@   ensures new-id-issued: s.id != "" && issued[s.id] && !old(issued)[s.id] && s.fresh
+//@   ensures issued-grows: forallS(k, old(issued)[k] ==> issued[k])
+
+//@ func (*Session).saveSession
+//@   requires unlocked: !held(s.mu)
+//@   requires wf: s.data == nil || wfSession(s)
+//@   requires stored-only-issued: s.data == nil || storedIssued(stOf(s))
+//@   lock s.mu protects lockToken
+//@   modifies s.idleTimeout, stHas, stVal, sentID, sentLive, lockToken
+//@   atcall @fiber.Storage.Set: under-own-id-with-idle-ttl: key == s.id && exp == s.idleTimeout && exp > 0
+//@   ensures stored: result == nil && s.data != nil ==> stHas[stOf(s)][s.id] && dataIs(s, stVal[stOf(s)][s.id])
+//@   ensures others-untouched: forallS(k, k != s.id ==> stHas[stOf(s)][k] == old(stHas[stOf(s)][k]) && stVal[stOf(s)][k] == old(stVal[stOf(s)][k])) && forallI(o, o != stOf(s) ==> stHas[o] == old(stHas[o]) && stVal[o] == old(stVal[o]))
+//@   ensures failed-keeps-store: result != nil ==> stHas == old(stHas) && stVal == old(stVal)
+//@   ensures announced: result == nil && s.data != nil && s.ctx != nil ==> sentID[s.ctx] == s.id && sentLive[s.ctx]
+//@   ensures stored-only-issued: s.data != nil ==> storedIssued(stOf(s))
+//@   ensures wf-kept: s.data != nil ==> wfSession(s)
+
+// Save persists unless the session is owned by the middleware of its context (then the middleware saves
+// it after the handler). Without a context it always persists. (The ownership test reads c.Locals, which is
+// not modelled; the contract only fixes what a save does when it happens.)
+//@ func (*Session).Save
+//@   requires unlocked: !held(s.mu)
+//@   requires wf: s.data == nil || wfSession(s)
+//@   requires stored-only-issued: s.data == nil || storedIssued(stOf(s))
+//@   modifies s.idleTimeout, stHas, stVal, sentID, sentLive, lockToken
+//@   ensures contextless-persists: s.ctx == nil && result == nil && s.data != nil ==> stHas[stOf(s)][s.id] && dataIs(s, stVal[stOf(s)][s.id])
+//@   ensures persisted-or-untouched: result == nil && s.data != nil ==> (stHas[stOf(s)][s.id] && dataIs(s, stVal[stOf(s)][s.id])) || (stHas == old(stHas) && stVal == old(stVal))
+//@   ensures failed-keeps-store: result != nil ==> stHas == old(stHas) && stVal == old(stVal)
+//@   ensures others-untouched: forallS(k, k != s.id ==> stHas[stOf(s)][k] == old(stHas[stOf(s)][k]) && stVal[stOf(s)][k] == old(stVal[stOf(s)][k])) && forallI(o, o != stOf(s) ==> stHas[o] == old(stHas[o]) && stVal[o] == old(stVal[o]))
+//@   ensures stored-only-issued: s.data != nil ==> storedIssued(stOf(s))
+//@   ensures wf-kept: s.data != nil ==> wfSession(s)
+
+// Destroy: the id no longer yields data, the handler-visible data is gone, the client is told to drop the id.
+//@ func (*Session).Destroy
+//@   requires unlocked: !held(s.mu)
+//@   requires wf: s.data == nil || wfSession(s)
+//@   lock s.mu protects lockToken
+//@   modifies s.data.Data, stHas, sentLive, lockToken
+//@   ensures id-gone: result == nil && s.data != nil ==> !stHas[stOf(s)][s.id]
+//@   ensures data-cleared: s.data != nil ==> dataEmpty(s)
+//@   ensures others-untouched: othersKept(stOf(s), s.id)
+//@   ensures failed-keeps-store: result != nil ==> stHas == old(stHas)
+//@   ensures expired-at-client: result == nil && s.data != nil && s.ctx != nil ==> !sentLive[s.ctx]
+//@   ensures wf-kept: s.data != nil ==> wfSession(s)
+
+// Regenerate: same data under a new server-generated id; the previous id no longer yields data.
+//@ func (*Session).Regenerate
+//@   requires wf: wfSession(s)
+//@   lock s.mu protects lockToken
+//@   modifies s.id, s.fresh, stHas, issued, lockToken
+//@   ensures old-id-gone: result == nil ==> !stHas[stOf(s)][old(s.id)]
+//@   ensures new-id-issued: result == nil ==> s.id != old(s.id) && !old(issued)[s.id] && s.fresh
+//@   ensures data-kept: s.data == old(s.data) && forallI(k, (indom(s.data.Data, k) <==> old(indom(s.data.Data, k))) && s.data.Data[k] == old(s.data.Data[k]))
+//@   ensures others-untouched: othersKept(stOf(s), old(s.id))
+//@   ensures failed-changes-nothing: result != nil ==> s.id == old(s.id) && stHas == old(stHas) && issued == old(issued)
+//@   ensures issued-grows: forallS(k, old(issued)[k] ==> issued[k])
+//@   ensures wf-kept: wfSession(s)
+
+// Reset: empty data under a new server-generated id; the previous id no longer yields data. With an
+// absolute timeout configured the new session must carry a deadline (abs-deadline-after-reset).
+//@ func (*Session).Reset
+//@   requires wf: wfSession(s)
+//@   lock s.mu protects lockToken
+//@   modifies s.data.Data, heap(MD_any_any), heap(MV_any_any), s.id, s.fresh, s.idleTimeout, stHas, issued, sentLive, lockToken
+//@   ensures old-id-gone: result == nil ==> !stHas[stOf(s)][old(s.id)]
+//@   ensures new-id-issued: result == nil ==> s.id != old(s.id) && !old(issued)[s.id] && s.fresh
+//@   ensures data-cleared: forallI(k, k != absKey() ==> !indom(s.data.Data, k))
+//@   ensures abs-deadline-after-reset: result == nil && s.config.AbsoluteTimeout > 0 ==> indom(s.data.Data, absKey())
+//@   ensures others-untouched: othersKept(stOf(s), old(s.id))
+//@   ensures failed-keeps-id: result != nil ==> s.id == old(s.id) && stHas == old(stHas) && issued == old(issued)
+//@   ensures issued-grows: forallS(k, old(issued)[k] ==> issued[k])
+//@   ensures expired-at-client: result == nil && s.ctx != nil ==> !sentLive[s.ctx]
+//@   ensures wf-kept: wfSession(s)
+
+//@ func (*Session).SetIdleTimeout
+//@   requires unlocked: !held(s.mu)
+//@   lock s.mu protects lockToken
+//@   modifies s.idleTimeout, lockToken
+//@   ensures s.idleTimeout == idleTimeout
+
+// Handler-side access to the data of this session only.
+//@ func (*Session).Get
+//@   requires unlocked: s.data == nil || !held(s.data.RWMutex)
+//@   pure
+//@   ensures stored-value: s.data != nil && indom(s.data.Data, key) ==> result == s.data.Data[key]
+//@   ensures absent-nil: s.data == nil || !indom(s.data.Data, key) ==> result == nil
+//@ func (*Session).Set
+//@   requires unlocked: s.data == nil || (!held(s.data.RWMutex) && s.data.Data != nil)
+//@   modifies heap(MD_any_any), heap(MV_any_any), lockToken
+//@   ensures set: s.data != nil ==> indom(s.data.Data, key) && s.data.Data[key] == val
+//@   ensures others-kept: s.data != nil ==> forallI(k, k != key ==> (indom(s.data.Data, k) <==> old(indom(s.data.Data, k))) && s.data.Data[k] == old(s.data.Data[k]))
+//@ func (*Session).Delete
+//@   requires unlocked: s.data == nil || !held(s.data.RWMutex)
+//@   modifies heap(MD_any_any), lockToken
+//@   ensures deleted: s.data != nil ==> !indom(s.data.Data, key)
+//@   ensures others-kept: s.data != nil ==> forallI(k, k != key ==> (indom(s.data.Data, k) <==> old(indom(s.data.Data, k))) && s.data.Data[k] == old(s.data.Data[k]))
+
+// ---------------------------------------------------------------------------------------------
+// Absolute timeout: the deadline lives in the session data under absExpirationKey
+// ---------------------------------------------------------------------------------------------
+
+//@ fn unboxOf(x int) int
+//@ smt (assert (forall ((x Int)) (! (= (unboxOf x) (unboxI x)) :pattern ((unboxOf x)))))
+//@ macro hasDeadline(s) = s.data != nil && indom(s.data.Data, absKey()) && typeis(s.data.Data[absKey()], time.Time)
+//@ macro deadline(s) = unboxOf(s.data.Data[absKey()])
+
+//@ func (*Session).absExpiration
+//@   requires unlocked: s.data == nil || !held(s.data.RWMutex)
+//@   pure
+//@   ensures reads-deadline: hasDeadline(s) ==> result == deadline(s)
+//@   ensures none-is-zero: !hasDeadline(s) ==> tIsZero(result)
+
+// Whether a deadline has passed depends on the clock, which the contracts do not model: pastDeadline(d, ep)
+// stands for "instant d lies before now" as observed by the check made in state epoch ep. The defining
+// equation is not checked against the body; what is checked: no deadline (or a zero one) never expires, and
+// the comparison made is now.After(deadline).
+//@ fn pastDeadline(d int, ep int) bool
+//@ macro expiredNow(s) = hasDeadline(s) && !tIsZero(deadline(s)) && pastDeadline(deadline(s), epoch)
+//@ func (*Session).isAbsExpired
+//@   requires unlocked: s.data == nil || !held(s.data.RWMutex)
+//@   pure
+//@   defines result == expiredNow(s)
+//@   ensures no-deadline-never-expires: !hasDeadline(s) || tIsZero(deadline(s)) ==> !result
+//@   atcall @time.(Time).After: now-after-deadline: t == last("@time.Now") && hasDeadline(s) && u == deadline(s)
+
+//@ func (*Session).setAbsExpiration
+//@   requires unlocked: s.data == nil || (!held(s.data.RWMutex) && s.data.Data != nil)
+//@   modifies heap(MD_any_any), heap(MV_any_any), lockToken
+//@   ensures deadline-set: s.data != nil ==> hasDeadline(s) && deadline(s) == absExpiration
+//@   ensures others-kept: s.data != nil ==> forallI(k, k != absKey() ==> (indom(s.data.Data, k) <==> old(indom(s.data.Data, k))) && s.data.Data[k] == old(s.data.Data[k]))
+
+// ---------------------------------------------------------------------------------------------
+// Pooling: a Session object in the pool carries nothing of its previous user
+// ---------------------------------------------------------------------------------------------
+
+//@ macro pooledSession(s) = s.id == "" && s.idleTimeout == 0 && s.ctx == nil && s.config == nil && (s.data == nil || (s.data.Data != nil && dataEmpty(s)))
+
+// Assumption about sync.Pool: Get returns New() or an object that was Put and not touched since, and no
+// object is handed to two users. The Put side (pool-invariant) is proved in releaseSession.
+//@ func acquireSession assumed
+//@   ensures pooled: result != nil && pooledSession(result) && result.data != nil && result.fresh && unlocked(result)
+
+//@ func releaseSession
+//@   requires unlocked: !held(s.mu) && (s.data == nil || (!held(s.data.RWMutex) && s.mu != s.data.RWMutex))
+//@   lock s.mu protects lockToken
+//@   modifies s.id, s.idleTimeout, s.ctx, s.config, s.data.Data, lockToken
+//@   atcall @sync.(*Pool).Put: pool-invariant: pooledSession(s)
+//@   ensures scrubbed: pooledSession(s)
+
+//@ func (*Session).Release
+//@   requires unlocked: s == nil || (!held(s.mu) && (s.data == nil || (!held(s.data.RWMutex) && s.mu != s.data.RWMutex)))
+//@   modifies s.id, s.idleTimeout, s.ctx, s.config, s.data.Data, lockToken
+//@   ensures scrubbed: s != nil ==> pooledSession(s)
+
+// ---------------------------------------------------------------------------------------------
+// store.go
+// ---------------------------------------------------------------------------------------------
+
+// The id a request presents: the cookie named sessionName if there is one, else the configured source.
+//@ func (*Store).getSessionID
+//@   pure
+//@   ensures cookie-first: reqCookie(c, s.sessionName, epoch) != "" ==> result == reqCookie(c, s.sessionName, epoch)
+//@   ensures cookie-store-reads-only-cookie: s.source == SourceCookie ==> result == reqCookie(c, s.sessionName, epoch)
+//@   ensures query-store: s.source == SourceURLQuery && reqCookie(c, s.sessionName, epoch) == "" ==> result == reqQuery(c, s.sessionName, epoch)
+// (header source: the value is RequestHeader.Peek(sessionName) on c.Request(); a clause for it would need last(Peek),
+// which callers of getSessionID cannot evaluate - engine limitation, the header case is left open)
+
+//@ macro seesStored(sess, b) = forallI(k, (k != absKey() || !sess.fresh) ==> (indom(sess.data.Data, k) <==> decHas(b, k)) && (decHas(b, k) ==> sess.data.Data[k] == decVal(b, k)))
+
+// getSession: the session a handler gets for a request.
+//@ func (*Store).getSession
+//@   requires store-wf: wfStore(s)
+//@   requires stored-only-issued: storedIssued(s.Storage)
+//@   lock sess.mu protects lockToken
+//@   modifies Session.ctx, Session.config, Session.id, Session.fresh, Session.idleTimeout, data.Data, heap(MD_any_any), heap(MV_any_any), stHas, issued, sentLive, lockToken
+//@   ensures never-adopts-unissued-id: result1 == nil ==> result0 != nil && result0.id != "" && issued[result0.id]
+//@   ensures existing-id-only-if-stored: result1 == nil && old(issued)[result0.id] ==> old(stHas)[s.Storage][result0.id]
+//@   ensures existing-id-sees-stored-data: result1 == nil && old(issued)[result0.id] ==> seesStored(result0, old(stVal)[s.Storage][result0.id])
+//@   ensures new-id-is-fresh-and-empty: result1 == nil && !old(issued)[result0.id] ==> result0.fresh && forallI(k, k != absKey() ==> !indom(result0.data.Data, k))
+//@   ensures not-fresh-means-existing-id: result1 == nil && !result0.fresh ==> old(issued)[result0.id]
+//@   ensures expired-session-not-returned: result1 == nil && !result0.fresh ==> !expiredNow(result0)
+//@   ensures fresh-gets-deadline: result1 == nil && result0.fresh && s.AbsoluteTimeout > 0 ==> hasDeadline(result0)
+//@   ensures store-only-shrinks: forallS(k, stHas[s.Storage][k] ==> old(stHas[s.Storage][k])) && forallI(o, o != s.Storage ==> forallS(k, stHas[o][k] ==> old(stHas[o][k]))) && stVal == old(stVal)
+//@   ensures issued-grows: forallS(k, old(issued)[k] ==> issued[k])
+//@   ensures stored-only-issued: storedIssued(s.Storage)
+//@   ensures wf: result1 == nil ==> wfSession(result0) && result0.config == s && result0.ctx == c
+//@   ensures error-no-session: result1 != nil ==> result0 == nil
+
+//@ macro storedExpired(b) = decHas(b, absKey()) && typeis(decVal(b, absKey()), time.Time) && !tIsZero(unboxOf(decVal(b, absKey()))) && pastDeadline(unboxOf(decVal(b, absKey())), epoch)
+//@ macro errorsSet() = ErrEmptySessionID != nil && ErrSessionAlreadyLoadedByMiddleware != nil && ErrSessionIDNotFoundInStore != nil
+
+// Store.Get: like getSession, unless the middleware already owns the session of this request
+// (c.Locals is not modelled: the refusal itself is not decided here).
+//@ func (*Store).Get
+//@   requires store-wf: wfStore(s)
+//@   requires package-errors-initialised: errorsSet()
+//@   requires stored-only-issued: storedIssued(s.Storage)
+//@   modifies Session.ctx, Session.config, Session.id, Session.fresh, Session.idleTimeout, data.Data, heap(MD_any_any), heap(MV_any_any), stHas, issued, sentLive, lockToken
+//@   ensures never-adopts-unissued-id: result1 == nil ==> result0 != nil && result0.id != "" && issued[result0.id]
+//@   ensures existing-id-only-if-stored: result1 == nil && old(issued)[result0.id] ==> old(stHas)[s.Storage][result0.id]
+//@   ensures existing-id-sees-stored-data: result1 == nil && old(issued)[result0.id] ==> seesStored(result0, old(stVal)[s.Storage][result0.id])
+//@   ensures new-id-is-fresh-and-empty: result1 == nil && !old(issued)[result0.id] ==> result0.fresh && forallI(k, k != absKey() ==> !indom(result0.data.Data, k))
+//@   ensures store-only-shrinks: forallS(k, stHas[s.Storage][k] ==> old(stHas[s.Storage][k])) && stVal == old(stVal)
+//@   ensures stored-only-issued: storedIssued(s.Storage)
+//@   ensures wf: result1 == nil ==> wfSession(result0) && result0.config == s && result0.ctx == c
+//@   ensures error-no-session: result1 != nil ==> result0 == nil
+
+// GetByID: only an id that is in the store yields a session, with exactly the stored data; an id whose
+// absolute deadline has passed yields none and is removed.
+//@ func (*Store).GetByID
+//@   requires store-wf: wfStore(s)
+//@   requires package-errors-initialised: errorsSet()
+//@   requires stored-only-issued: storedIssued(s.Storage)
+//@   lock sess.mu protects lockToken
+//@   modifies Session.ctx, Session.config, Session.id, Session.fresh, Session.idleTimeout, data.Data, heap(MD_any_any), heap(MV_any_any), stHas, sentLive, lockToken
+//@   ensures only-stored-id: result1 == nil ==> result0 != nil && id != "" && result0.id == id && old(stHas)[s.Storage][id] && !result0.fresh
+//@   ensures sees-stored-data: result1 == nil ==> seesStored(result0, old(stVal)[s.Storage][id])
+//@   ensures expired-not-returned: result1 == nil && s.AbsoluteTimeout > 0 ==> !expiredNow(result0)
+//@   ensures stored-expired-yields-none: s.AbsoluteTimeout > 0 && id != "" && old(stHas)[s.Storage][id] && storedExpired(old(stVal)[s.Storage][id]) ==> result0 == nil && result1 != nil
+//@   ensures store-only-shrinks: forallS(k, stHas[s.Storage][k] ==> old(stHas[s.Storage][k])) && stVal == old(stVal)
+//@   ensures others-untouched-by-expiry: forallI(o, o != s.Storage ==> forallS(k, stHas[o][k] ==> old(stHas[o][k])))
+//@   ensures wf: result1 == nil ==> wfSession(result0) && result0.config == s && result0.ctx == nil
+//@   ensures error-no-session: result1 != nil ==> result0 == nil
+
+// Store.Delete / Store.Reset: the id / every id of this store no longer yields data.
+//@ func (*Store).Delete
+//@   requires store-wf: wfStore(s)
+//@   requires package-errors-initialised: errorsSet()
+//@   modifies stHas
+//@   ensures id-gone: result == nil ==> id != "" && !stHas[s.Storage][id]
+//@   ensures empty-id-refused: id == "" ==> result != nil && stHas == old(stHas)
+//@   ensures others-untouched: othersKept(s.Storage, id)
+//@   ensures failed-keeps-store: result != nil ==> stHas == old(stHas)
+//@ func (*Store).Reset
+//@   requires store-wf: wfStore(s)
+//@   modifies stHas
+//@   ensures all-gone: result == nil ==> forallS(k, !stHas[s.Storage][k])
+//@   ensures other-stores-untouched: forallI(o, o != s.Storage ==> stHas[o] == old(stHas[o]))
+
+// ---------------------------------------------------------------------------------------------
+// middleware.go
+// ---------------------------------------------------------------------------------------------
+
+// While a Middleware object serves a request (from initialize to releaseMiddleware) and m.mu is free, it
+// owns a well-formed session. This is the lock invariant of m.mu: the functions that take m.mu rely on
+// it at Lock and re-establish it at Unlock; initialize establishes it.
+//@ macro mwInv(m) = m.Session != nil && wfSession(m.Session) && storedIssued(stOf(m.Session)) && m.mu != m.Session.mu && m.mu != m.Session.data.RWMutex
+//@ macro pooledMiddleware(m) = m.Session == nil && m.ctx == nil && !m.destroyed && m.config.Store == nil && m.config.Storage == nil
+
+// Assumption about sync.Pool (see acquireSession); the Put side is proved in releaseMiddleware.
+//@ func acquireMiddleware assumed
+//@   ensures pooled: result != nil && pooledMiddleware(result) && !held(result.mu)
+
+//@ func releaseMiddleware
+//@   requires unlocked: !held(m.mu)
+//@   lock m.mu protects lockToken
+//@   modifies heap, lockToken
+//@   atcall @sync.(*Pool).Put: pool-invariant: pooledMiddleware(m)
+//@   ensures scrubbed: pooledMiddleware(m)
+
+// Error handlers report the failure on the response; they are assumed not to touch sessions or the store.
+//@ func Config.ErrorHandler assumed
+//@   modifies sentStatus
+//@ func DefaultErrorHandler
+//@   modifies sentStatus
+
+// initialize: the session the handler will see is the one getSession yields for this request.
+//@ func (*Middleware).initialize panics
+//@   requires unlocked: !held(m.mu)
+//@   requires store-wf: cfg.Store != nil && wfStore(cfg.Store) && storedIssued(cfg.Store.Storage)
+//@   modifies heap, stHas, issued, sentLive, lockToken
+//@   ensures owns-session: mwInv(m) && m.ctx == c && m.Session.ctx == c && m.Session.config == cfg.Store && !held(m.mu)
+//@   ensures never-adopts-unissued-id: issued[m.Session.id]
+//@   ensures existing-id-only-if-stored: old(issued)[m.Session.id] ==> old(stHas)[cfg.Store.Storage][m.Session.id]
+//@   ensures existing-id-sees-stored-data: old(issued)[m.Session.id] ==> seesStored(m.Session, old(stVal)[cfg.Store.Storage][m.Session.id])
+//@   ensures new-id-is-fresh-and-empty: !old(issued)[m.Session.id] ==> m.Session.fresh && forallI(k, k != absKey() ==> !indom(m.Session.data.Data, k))
+//@   ensures expired-session-not-seen: !m.Session.fresh ==> !expiredNow(m.Session)
+//@   ensures store-only-shrinks: forallS(k, stHas[cfg.Store.Storage][k] ==> old(stHas[cfg.Store.Storage][k])) && stVal == old(stVal)
+
+// After the handler: persist under the session's id, then hand the Session object back to the pool.
+//@ macro savedAs(m, st, id) = stHas[st][id] && forallI(k, old(indom(m.Session.data.Data, k)) <==> decHas(stVal[st][id], k)) && forallI(k, decHas(stVal[st][id], k) ==> old(m.Session.data.Data[k]) == decVal(stVal[st][id], k))
+//@ func (*Middleware).saveSession
+//@   requires owns-session: mwInv(m) && !held(m.mu)
+//@   modifies Session.idleTimeout, Session.id, Session.ctx, Session.config, data.Data, stHas, stVal, sentID, sentLive, sentStatus, lockToken
+//@   atcall releaseSession: releases-own-session: s == m.Session
+//@   ensures persisted-or-failed: savedAs(m, old(stOf(m.Session)), old(m.Session.id)) || (stHas == old(stHas) && stVal == old(stVal))
+//@   ensures others-untouched: forallS(k, k != old(m.Session.id) ==> stHas[old(stOf(m.Session))][k] == old(stHas[stOf(m.Session)][k]) && stVal[old(stOf(m.Session))][k] == old(stVal[stOf(m.Session)][k])) && forallI(o, o != old(stOf(m.Session)) ==> stHas[o] == old(stHas[o]) && stVal[o] == old(stVal[o]))
+//@   ensures session-scrubbed: pooledSession(m.Session)
+
+//@ macro bypassed() = called(Config.Next) && last(Config.Next)
+//@ func Config.Next assumed pure
+
+// The handler. m.mu's invariant (mwInv) is what the rest of the chain must leave behind (relied on at
+// the RLock after c.Next()).
+//@ func NewWithStore$1
+//@   requires fresh-activation: nextCalls == 0 && forallI(l, !held(l))
+//@   requires store-wf: cfg.Store != nil && wfStore(cfg.Store) && storedIssued(cfg.Store.Storage)
+//@   lock m.mu protects H_session_Middleware_destroyed inv mw-owns-session: mwInv(m)
+//@   atcall @fiber.Ctx.Next: handler-sees-issued-session: bypassed() || (called((*Middleware).initialize) && mwInv(last(acquireMiddleware)) && last(acquireMiddleware).Session.ctx == c)
+//@   atcall (*Middleware).saveSession: destroyed-session-not-saved: !destroyed && m == last(acquireMiddleware)
+//@   atcall releaseMiddleware: saved-unless-destroyed: (destroyed || called((*Middleware).saveSession)) && m == last(acquireMiddleware)
+//@   ensures handler-runs-once: nextCalls == 1
+//@   ensures middleware-released: !bypassed() ==> called(releaseMiddleware)
+
+// Handler-side API of the middleware-owned session.
+//@ func (*Middleware).Set
+//@   requires unlocked: !held(m.mu)
+//@   lock m.mu protects lockToken inv mw-owns-session: mwInv(m)
+//@   modifies lockToken, heap(MD_any_any), heap(MV_any_any)
+//@   ensures set: indom(m.Session.data.Data, key) && m.Session.data.Data[key] == value
+//@   ensures others-kept: forallI(k, k != key ==> (indom(m.Session.data.Data, k) <==> old(indom(m.Session.data.Data, k))) && m.Session.data.Data[k] == old(m.Session.data.Data[k]))
+//@ func (*Middleware).Get
+//@   requires unlocked: !held(m.mu)
+//@   lock m.mu protects lockToken inv mw-owns-session: mwInv(m)
+//@   modifies lockToken
+//@   ensures stored-value: indom(m.Session.data.Data, key) ==> result == m.Session.data.Data[key]
+//@   ensures absent-nil: !indom(m.Session.data.Data, key) ==> result == nil
+//@ func (*Middleware).Delete
+//@   requires unlocked: !held(m.mu)
+//@   lock m.mu protects lockToken inv mw-owns-session: mwInv(m)
+//@   modifies lockToken, heap(MD_any_any)
+//@   ensures deleted: !indom(m.Session.data.Data, key)
+//@   ensures others-kept: forallI(k, k != key ==> (indom(m.Session.data.Data, k) <==> old(indom(m.Session.data.Data, k))) && m.Session.data.Data[k] == old(m.Session.data.Data[k]))
+
+// Destroy marks the middleware so that the handler does not save the session again.
+//@ func (*Middleware).Destroy
+//@   requires unlocked: !held(m.mu)
+//@   lock m.mu protects H_session_Middleware_destroyed inv mw-owns-session: mwInv(m)
+//@   modifies Middleware.destroyed, data.Data, stHas, sentLive, lockToken
+//@   ensures marked-destroyed: m.destroyed
+//@   ensures id-gone: result == nil ==> !stHas[stOf(m.Session)][m.Session.id]
+//@   ensures data-cleared: dataEmpty(m.Session)
+//@   ensures others-untouched: othersKept(stOf(m.Session), m.Session.id)
+//@   ensures expired-at-client: result == nil && m.Session.ctx != nil ==> !sentLive[m.Session.ctx]
+
+// Reset: see (*Session).Reset (where the missing absolute deadline is reported).
+//@ func (*Middleware).Reset
+//@   requires unlocked: !held(m.mu)
+//@   lock m.mu protects lockToken inv mw-owns-session: mwInv(m)
+//@   modifies lockToken, data.Data, heap(MD_any_any), heap(MV_any_any), Session.id, Session.fresh, Session.idleTimeout, stHas, issued, sentLive
+//@   ensures old-id-gone: result == nil ==> !stHas[stOf(m.Session)][old(m.Session.id)]
+//@   ensures new-id-issued: result == nil ==> issued[m.Session.id] && !old(issued)[m.Session.id] && m.Session.fresh
+//@   ensures data-cleared: forallI(k, k != absKey() ==> !indom(m.Session.data.Data, k))
+//@   ensures others-untouched: othersKept(stOf(m.Session), old(m.Session.id))
+//@   ensures issued-grows: forallS(k, old(issued)[k] ==> issued[k])
+
+// ---------------------------------------------------------------------------------------------
+// config.go / NewStore: where the store invariant (wfStore) comes from
+// ---------------------------------------------------------------------------------------------
+
+// The exported default configuration is assumed to be as declared (positive idle timeout, a generator).
+// (allocated(ConfigDefault): the engine does not know that a package variable is distinct from fresh allocations.)
+//@ macro defaultsSane() = allocated(ConfigDefault) && ConfigDefault.IdleTimeout > 0 && ConfigDefault.KeyGenerator != nil && ConfigDefault.AbsoluteTimeout == 0
+//@ func configDefault panics
+//@   requires defaults-as-declared: defaultsSane()
+//@   pure
+//@   ensures idle-timeout-positive: result.IdleTimeout > 0
+//@   ensures generator-set: result.KeyGenerator != nil
+//@   ensures absolute-not-below-idle: result.AbsoluteTimeout <= 0 || result.AbsoluteTimeout >= result.IdleTimeout
+//@   ensures storage-as-given: len(config) > 0 ==> result.Storage == config[0].Storage
+
+// RegisterType only talks to encoding/gob.
+//@ func (*Store).RegisterType assumed pure
+
+//@ func NewStore
+//@   requires defaults-as-declared: defaultsSane()
+//@   ensures store-wf: wfStore(result)
+//@   ensures absolute-not-below-idle: result.AbsoluteTimeout <= 0 || result.AbsoluteTimeout >= result.IdleTimeout
+//@   ensures given-storage-kept: len(config) > 0 && config[0].Storage != nil ==> result.Storage == config[0].Storage
